@@ -207,6 +207,39 @@ namespace xv
     void register_ops(); // defined by the harness translation unit
 }
 
+// A unit of registrations that the library accepts only for some (architecture, element type)
+// combinations.  Acceptance is decided by trial compilation (engine/vlib.py): XV_OFF_<name> is a bit
+// mask of element-type codes for which the unit is left out.  Define `template <class T> void
+// feature_<name>()` after XV_FEATURE(name) and call maybe_<name><T>() from register_ops().
+#define XV_FEATURE(NAME)                                                 \
+    template <class T>                                                   \
+    void feature_##NAME();                                               \
+    template <class T>                                                   \
+    void maybe_##NAME()                                                  \
+    {                                                                    \
+        if constexpr (!((XV_OFF_##NAME >> tcode<T>::value) & 1))         \
+            feature_##NAME<T>();                                         \
+    }
+#define XV_CAT2(a, b) a##b
+#define XV_CAT(a, b) XV_CAT2(a, b)
+#if defined(XV_PROBE_FEATURE) && defined(XV_PROBE_ALL_TYPES)
+#define XV_PROBE_INSTANTIATE                                                   \
+    template void xv::XV_CAT(feature_, XV_PROBE_FEATURE)<int8_t>();            \
+    template void xv::XV_CAT(feature_, XV_PROBE_FEATURE)<uint8_t>();           \
+    template void xv::XV_CAT(feature_, XV_PROBE_FEATURE)<int16_t>();           \
+    template void xv::XV_CAT(feature_, XV_PROBE_FEATURE)<uint16_t>();          \
+    template void xv::XV_CAT(feature_, XV_PROBE_FEATURE)<int32_t>();           \
+    template void xv::XV_CAT(feature_, XV_PROBE_FEATURE)<uint32_t>();          \
+    template void xv::XV_CAT(feature_, XV_PROBE_FEATURE)<int64_t>();           \
+    template void xv::XV_CAT(feature_, XV_PROBE_FEATURE)<uint64_t>();          \
+    template void xv::XV_CAT(feature_, XV_PROBE_FEATURE)<float>();             \
+    template void xv::XV_CAT(feature_, XV_PROBE_FEATURE)<double>();
+#elif defined(XV_PROBE_FEATURE)
+#define XV_PROBE_INSTANTIATE template void xv::XV_CAT(feature_, XV_PROBE_FEATURE)<XV_PROBE_TYPE>();
+#else
+#define XV_PROBE_INSTANTIATE
+#endif
+
 // f<T>(operands..., long param)
 #define XV_OP1(NAME, EXPR)                                  \
     struct NAME                                             \
